@@ -511,6 +511,30 @@ M("c01-double-underflow-flushed", "C02", "json_tokener.c",
 M("c01-benign-conversion-local", "C01", "json_tokener.c",
   "\t*retval = strtod(buf, &end);\n",
   "\tdouble d = strtod(buf, &end);\n\t*retval = d;\n", expect="silent")
+M("c16-strict-number-check-dropped", "C16", "json_tokener.c",
+  "\t\t\tif ((tok->flags & JSON_TOKENER_STRICT) &&\n\t\t\t    !json_tokener_is_rfc8259_number(tok->pb->buf))\n",
+  "\t\t\tif (0 && (tok->flags & JSON_TOKENER_STRICT) &&\n\t\t\t    !json_tokener_is_rfc8259_number(tok->pb->buf))\n", needle="C16.X6")
+M("c16-strict-empty-fraction", "C16", "json_tokener.c",
+  "\tif (*s == '.')\n\t{\n\t\ts++;\n\t\tif (!(*s >= '0' && *s <= '9'))\n\t\t\treturn 0;\n",
+  "\tif (*s == '.')\n\t{\n\t\ts++;\n", needle="decimal point")
+M("c16-strict-leading-zero-int-only", "C16", "json_tokener.c",
+  "\tif (*s == '0')\n\t\ts++;\n\telse if (*s >= '1' && *s <= '9')",
+  "\tif (*s == '0' && (s[1] == '.' || s[1] == 'e' || s[1] == 'E'))\n\t\ts++;\n\telse if (*s >= '0' && *s <= '9')", needle="leading zero")
+M("c16-benign-number-check-rewrite", "C16", "json_tokener.c",
+  "\tif (*s == '-')\n\t\ts++;\n\tif (*s == '0')\n\t\ts++;",
+  "\ts += (*s == '-');\n\tif (s[0] == '0')\n\t\t++s;", expect="silent")
+M("c01-exponent-not-double", "C01", "json_tokener.c",
+  "\t\t\t\t\tis_exponent = 1;\n\t\t\t\t\ttok->is_double = 1;\n\t\t\t\t\t/* the exponent part can begin with a negative sign */",
+  "\t\t\t\t\tis_exponent = 1;\n\t\t\t\t\t/* the exponent part can begin with a negative sign */", needle="C01.R7")
+M("c01-plus-sign-in-exponent-lost", "C01", "json_tokener.c",
+  "(neg_sign_ok && c == '-') || (pos_sign_ok && c == '+') ||", "(neg_sign_ok && c == '-') ||", needle="C01.R7")
+M("c03-resume-after-point-forgotten", "C03", "json_tokener.c",
+  "\t\t\t\telse if (*last_saved_char == '.')\n\t\t\t\t{\n\t\t\t\t\tpos_sign_ok = neg_sign_ok = 1;\n\t\t\t\t}\n", "", needle="C03.R8")
+M("c03-resume-neg-sign-default", "C03", "json_tokener.c",
+  "\t\t\t\tneg_sign_ok = 0;\n\t\t\t\tif (e_loc)", "\t\t\t\tif (e_loc)", needle="C03.R8")
+M("c03-benign-resume-strpbrk", "C03", "json_tokener.c",
+  "\t\t\t\tchar *e_loc = strchr(tok->pb->buf, 'e');\n\t\t\t\tif (!e_loc)\n\t\t\t\t\te_loc = strchr(tok->pb->buf, 'E');\n",
+  "\t\t\t\tchar *e_loc = strpbrk(tok->pb->buf, \"eE\");\n", expect="silent")
 M("c02-benign-escape-reorder", "C02", "json_object.c",
   "\t\t\tif (c == '\\b')\n\t\t\t\tprintbuf_memappend(pb, \"\\\\b\", 2);\n\t\t\telse if (c == '\\n')\n\t\t\t\tprintbuf_memappend(pb, \"\\\\n\", 2);",
   "\t\t\tif (c == '\\n')\n\t\t\t\tprintbuf_memappend(pb, \"\\\\n\", 2);\n\t\t\telse if (c == '\\b')\n\t\t\t\tprintbuf_memappend(pb, \"\\\\b\", 2);", expect="silent")
@@ -524,6 +548,12 @@ def PATCH(mid, prop, patch, expect="fire", needle="", tier="quick"):
 
 PATCH("c07-benign-resize-helper", "C07", "arraylist-resize-helper-benign.diff", expect="silent")
 PATCH("c08-benign-resize-helper", "C08", "arraylist-resize-helper-benign.diff", expect="silent")
+PATCH("c06-benign-probe-helper", "C06", "linkhash-probe-helper-benign.diff", expect="silent")
+PATCH("c05-benign-probe-helper", "C05", "linkhash-probe-helper-benign.diff", expect="silent")
+PATCH("c01-benign-strict-helper", "C01", "tokener-strict-helper-benign.diff", expect="silent")
+PATCH("c16-benign-strict-helper", "C16", "tokener-strict-helper-benign.diff", expect="silent")
+PATCH("c03-benign-strict-helper", "C03", "tokener-strict-helper-benign.diff", expect="silent")
+PATCH("c04-benign-strict-helper", "C04", "tokener-strict-helper-benign.diff", expect="silent")
 M("c11-raw-len-positive-test", "C11", "json_object.c",
   "\tcase json_type_string: return (JC_STRING_C(jso)->len != 0);", "\tcase json_type_string: return (JC_STRING_C(jso)->len > 0);", needle="C11.R7")
 M("c11-benign-len-zero-test", "C11", "json_object.c",
